@@ -94,7 +94,7 @@ def late_timer_cases(tier, seed):
     for lag in (0.3, 1.0):
         for kind in ("par", "map"):
             for parker in ("retry", "wfc", "retry-amo", "two-retriers"):
-                for rep in range(1 if tier == "quick" else 4):
+                for rep in range(2 if tier == "quick" else 6):
                     if parker == "wfc":
                         p0 = [{"k": "wfc", "init": 0, "decisions": [("cont", 1), ("cont", 1), ("stop",)]}]
                     else:
@@ -110,7 +110,7 @@ def late_timer_cases(tier, seed):
                            "pattern": {"p": "plain"}, "holds": holds, "world": {"complete": {}, "timers": "all", "timer_lag": lag}, "max_inv": 12,
                            "opts": {"idle_s": 0.8, "hang_s": 3.0,
                                     "perturb": {"p": 0.0, "seed": seed * 977 + i, "files": ["executor.py", "state.py", "models.py"],
-                                                "after_sync": {"p": rng.choice([0.4, 0.7]), "sleep": rng.choice([0.002, 0.004])}}}}
+                                                "after_sync": {"p": rng.choice([0.4, 0.7]), "sleep": rng.choice([0.002, 0.004, 0.008])}}}}
                     i += 1
 
 
